@@ -155,6 +155,14 @@ CHECKS = {
         "unread (when DA1 is answered), defaults within the timeout otherwise.",
         note="Timing: verdicts use values, not wall-clock; a timing-sensitive mismatch must reproduce 3/3 with longer timeouts; elapsed-time overruns are inconclusive, not violations.",
     ),
+    "C13": dict(
+        level="fault_enumeration",
+        technique="fault enumeration: an exception before/after every tcgetattr/tcsetattr/tcdrain/write/select/read of each operation (restoring call excluded by stack walk), real SIGINT while parked in select; byte-for-byte tcgetattr comparison on a real pty",
+        text="Every attribute-changing operation (queries, direct reads in all modes, query helpers, draw with echo suppressed) is run from "
+        "random initial attribute sets; after normal return, time-out, a raising predicate, an injected KeyboardInterrupt/OSError at each "
+        "system-call boundary and a real SIGINT, tcgetattr must return exactly the initial list (all flags and control characters).",
+        note="System-call names in the library's namespaces are replaced by counting proxies; a signal between entering a finally block and the restoring call is out of scope (cannot be excluded in Python).",
+    ),
 }
 
 NOT_APPLICABLE = {
